@@ -807,6 +807,10 @@ type c16FileCase struct {
 	Name   string `json:"spelling"`
 	Chords string `json:"chord_file"`
 	Attrs  string `json:"attr_file"`
+	// Extra: a second --chord and --attr file with this content is given as well (an empty
+	// dictionary adds nothing), before (true) or after the real one
+	Extra      *string `json:"extra_file,omitempty"`
+	ExtraFirst bool    `json:"extra_first,omitempty"`
 }
 
 const (
@@ -815,7 +819,7 @@ const (
 	c16FileDoc     = "- chord:\n    degree: \"1\"\n    name: \"ua\"\n  values:\n    - \"1\"\n- chord:\n    degree: \"4\"\n    name: \"UserB\"\n  values:\n    - \"1\"\n- chord:\n    degree: \"5\"\n    name: \"uc\"\n    base: \"3\"\n  values:\n    - \"1\"\n"
 )
 
-func c16FileRun(e *Env, chords, attrs string) (string, string) {
+func c16FileRun(e *Env, chords, attrs string, extra ...string) (string, string) {
 	dir := filepath.Join(e.Scratch, fmt.Sprintf("dict%d", atomic.AddInt64(&c16Dir, 1)))
 	if err := os.MkdirAll(dir, 0o755); err != nil {
 		panic(err)
@@ -824,9 +828,26 @@ func c16FileRun(e *Env, chords, attrs string) (string, string) {
 	cf, af := writeTemp(dir, "chords.yml", chords), writeTemp(dir, "attrs.yml", attrs)
 	var out strings.Builder
 	for _, a := range [][]string{{"write", "event"}, {"info", "chord", "list"}, {"info", "attr", "list"}, {"info", "chord", "describe", "-t", "C_ub"}} {
-		args := append(append([]string{}, a...), "--attr", af)
+		args := append([]string{}, a...)
+		xf := ""
+		if len(extra) == 2 {
+			xf = writeTemp(dir, "extra.yml", extra[0])
+		}
+		if xf != "" && extra[1] == "first" {
+			args = append(args, "--attr", xf)
+		}
+		args = append(args, "--attr", af)
+		if xf != "" && extra[1] != "first" {
+			args = append(args, "--attr", xf)
+		}
 		if a[1] != "attr" {
+			if xf != "" && extra[1] == "first" {
+				args = append(args, "--chord", xf)
+			}
 			args = append(args, "--chord", cf)
+			if xf != "" && extra[1] != "first" {
+				args = append(args, "--chord", xf)
+			}
 		}
 		r := cli.In(c16FileDoc, args...)
 		if !r.OK() {
@@ -840,7 +861,11 @@ func c16FileRun(e *Env, chords, attrs string) (string, string) {
 func c16FileEval(e *Env, c c16FileCase) {
 	e.R.Eval(1)
 	want, werr := c16FileRun(e, c16PlainChords, c16PlainAttrs)
-	got, gerr := c16FileRun(e, c.Chords, c.Attrs)
+	var extra []string
+	if c.Extra != nil {
+		extra = []string{*c.Extra, map[bool]string{true: "first", false: "last"}[c.ExtraFirst]}
+	}
+	got, gerr := c16FileRun(e, c.Chords, c.Attrs, extra...)
 	if werr != "" {
 		panic("C16 harness: the plain dictionary is refused: " + werr)
 	}
@@ -872,16 +897,23 @@ func c16FileSpellings(e *Env) {
 		{"leading-spaces-on-first-line", func(s string) string { return "  " + strings.ReplaceAll(s, "\n", "\n  ") }},
 	}
 	cases := []c16FileCase{
-		{"flow-style", "[{name: UserA, meta: {display: ua}, extends: m7, attributes: [Major9, UA]}, {name: UserB, meta: {display: ub}, extends: UserA, attributes: [Perfect11]}, {name: UserC, meta: {display: uc}, attributes: [Perfect1, UB, Perfect5]}]\n", "[{name: UA, degree: \"#11\"}, {name: UB, degree: b3}]\n"},
-		{"json", "[{\"name\": \"UserA\", \"meta\": {\"display\": \"ua\"}, \"extends\": \"m7\", \"attributes\": [\"Major9\", \"UA\"]}, {\"name\": \"UserB\", \"meta\": {\"display\": \"ub\"}, \"extends\": \"UserA\", \"attributes\": [\"Perfect11\"]}, {\"name\": \"UserC\", \"meta\": {\"display\": \"uc\"}, \"attributes\": [\"Perfect1\", \"UB\", \"Perfect5\"]}]", "[{\"name\": \"UA\", \"degree\": \"#11\"}, {\"name\": \"UB\", \"degree\": \"b3\"}]"},
-		{"anchors-and-aliases", "- name: UserA\n  meta:\n    display: ua\n  extends: &p m7\n  attributes: &x\n    - Major9\n    - UA\n- name: UserB\n  meta:\n    display: ub\n  extends: UserA\n  attributes:\n    - Perfect11\n- name: UserC\n  meta: {display: uc}\n  attributes:\n    - &one Perfect1\n    - UB\n    - Perfect5\n", "- &a\n  name: UA\n  degree: \"#11\"\n- name: UB\n  degree: \"b3\"\n"},
-		{"quoted-scalars", strings.NewReplacer("UserA", "\"UserA\"", "Major9", "'Major9'", "ua", "'ua'").Replace(c16PlainChords), strings.ReplaceAll(c16PlainAttrs, "UA", "'UA'")},
+		{Name: "flow-style", Chords: "[{name: UserA, meta: {display: ua}, extends: m7, attributes: [Major9, UA]}, {name: UserB, meta: {display: ub}, extends: UserA, attributes: [Perfect11]}, {name: UserC, meta: {display: uc}, attributes: [Perfect1, UB, Perfect5]}]\n", Attrs: "[{name: UA, degree: \"#11\"}, {name: UB, degree: b3}]\n"},
+		{Name: "json", Chords: "[{\"name\": \"UserA\", \"meta\": {\"display\": \"ua\"}, \"extends\": \"m7\", \"attributes\": [\"Major9\", \"UA\"]}, {\"name\": \"UserB\", \"meta\": {\"display\": \"ub\"}, \"extends\": \"UserA\", \"attributes\": [\"Perfect11\"]}, {\"name\": \"UserC\", \"meta\": {\"display\": \"uc\"}, \"attributes\": [\"Perfect1\", \"UB\", \"Perfect5\"]}]", Attrs: "[{\"name\": \"UA\", \"degree\": \"#11\"}, {\"name\": \"UB\", \"degree\": \"b3\"}]"},
+		{Name: "anchors-and-aliases", Chords: "- name: UserA\n  meta:\n    display: ua\n  extends: &p m7\n  attributes: &x\n    - Major9\n    - UA\n- name: UserB\n  meta:\n    display: ub\n  extends: UserA\n  attributes:\n    - Perfect11\n- name: UserC\n  meta: {display: uc}\n  attributes:\n    - &one Perfect1\n    - UB\n    - Perfect5\n", Attrs: "- &a\n  name: UA\n  degree: \"#11\"\n- name: UB\n  degree: \"b3\"\n"},
+		{Name: "quoted-scalars", Chords: strings.NewReplacer("UserA", "\"UserA\"", "Major9", "'Major9'", "ua", "'ua'").Replace(c16PlainChords), Attrs: strings.ReplaceAll(c16PlainAttrs, "UA", "'UA'")},
+	}
+	// a dictionary file that defines nothing, given next to the real ones
+	for name, content := range map[string]string{"empty-file": "", "comment-only-file": "# nothing yet\n", "blank-lines-only": "\n\n", "empty-list": "[]\n", "document-marker-only": "---\n", "null-document": "~\n"} {
+		content := content
+		cases = append(cases,
+			c16FileCase{Name: "extra-" + name + "/first", Chords: c16PlainChords, Attrs: c16PlainAttrs, Extra: &content, ExtraFirst: true},
+			c16FileCase{Name: "extra-" + name + "/last", Chords: c16PlainChords, Attrs: c16PlainAttrs, Extra: &content})
 	}
 	for _, d := range dress {
 		cases = append(cases,
-			c16FileCase{d.name + "/chord-file", d.f(c16PlainChords), c16PlainAttrs},
-			c16FileCase{d.name + "/attr-file", c16PlainChords, d.f(c16PlainAttrs)},
-			c16FileCase{d.name + "/both", d.f(c16PlainChords), d.f(c16PlainAttrs)})
+			c16FileCase{Name: d.name + "/chord-file", Chords: d.f(c16PlainChords), Attrs: c16PlainAttrs},
+			c16FileCase{Name: d.name + "/attr-file", Chords: c16PlainChords, Attrs: d.f(c16PlainAttrs)},
+			c16FileCase{Name: d.name + "/both", Chords: d.f(c16PlainChords), Attrs: d.f(c16PlainAttrs)})
 	}
 	mc.ParFor(len(cases), func(i int) {
 		c16FileEval(e, cases[i])
